@@ -6,6 +6,7 @@
 
 #include <boost/multi/array.hpp>
 
+#include <memory>
 #include <numeric>
 
 namespace vp::ops {
@@ -65,15 +66,18 @@ template<class T> std::pair<T*, long>& last_parent() { static std::pair<T*, long
 template<int D, class S, std::size_t... I>
 decltype(auto) block_of(S& s, long const* e, std::index_sequence<I...>) { return s(multi::irange{1, 1 + e[I]}...); }
 
-// realise the value as a library object of the requested kind and call f(object const&)
-template<int D, class T = int, bool Mutable = false, class F>
-void with_operand(Val const& a, int kind, F&& f_) {
+template<class T> T* op_raw(T* p) { return p; }
+template<class P> auto op_raw(P const& p) -> decltype(p.raw()) { return p.raw(); }  // the harness' fancy pointers expose raw()
+
+// realise the value as a library object of the requested kind and call f(object const&); AllocT selects the pointer family of the parent storage
+template<int D, class T, bool Mutable, template<class> class AllocT, class F>
+void with_operand_a(Val const& a, int kind, F&& f_) {
 	auto f = [&](auto& obj) { if constexpr(Mutable) { f_(obj); } else { f_(std::as_const(obj)); } };
 	long e[D]; for(int k = 0; k < D; ++k) { e[k] = a.ext[static_cast<std::size_t>(k)]; }
 	long se[D]; for(int k = 0; k < D; ++k) { se[k] = e[k]; }
 	auto fillmap = [&](auto& S, auto&& map, T pad) {
 		long n = 1; for(int k = 0; k < D; ++k) { n *= se[k]; }
-		auto* p = S.data_elements();
+		auto* p = op_raw(S.data_elements());
 		last_parent<T>() = {p, n};  // lets a callback inspect the whole parent storage (guard cells around the view)
 		for(long i = 0; i < n; ++i) { p[i] = pad; }
 		if(a.n() == 0) { return; }
@@ -84,41 +88,47 @@ void with_operand(Val const& a, int kind, F&& f_) {
 	if constexpr(D >= 2) {
 		if(kind == K_TRANSPOSED) {
 			std::swap(se[0], se[1]);
-			multi::array<T, D> S(make_ext<D>(se));
+			multi::array<T, D, AllocT<T>> S(make_ext<D>(se));
 			fillmap(S, [](long const* t, long* st) { for(int k = 0; k < D; ++k) { st[k] = t[k]; } std::swap(st[0], st[1]); }, T{7});
 			auto&& w = S.transposed(); f(w); return;
 		}
 		if(kind == K_ROTATED) {
 			for(int k = 0; k < D; ++k) { se[(k + 1) % D] = e[k]; }
-			multi::array<T, D> S(make_ext<D>(se));
+			multi::array<T, D, AllocT<T>> S(make_ext<D>(se));
 			fillmap(S, [](long const* t, long* st) { for(int k = 0; k < D; ++k) { st[(k + 1) % D] = t[k]; } }, T{7});
 			auto&& w = S.rotated(); f(w); return;
 		}
 	}
 	if(kind == K_PADDED) {
 		for(int k = 0; k < D; ++k) { se[k] = e[k] + 2; }
-		multi::array<T, D> S(make_ext<D>(se));
+		multi::array<T, D, AllocT<T>> S(make_ext<D>(se));
 		fillmap(S, [](long const* t, long* st) { for(int k = 0; k < D; ++k) { st[k] = t[k] + 1; } }, T{7});
 		auto&& w = block_of<D>(S, e, std::make_index_sequence<static_cast<std::size_t>(D)>{}); f(w); return;
 	}
 	if(kind == K_STRIDED && e[0] >= 1) {
 		se[0] = 2*e[0];
-		multi::array<T, D> S(make_ext<D>(se));
+		multi::array<T, D, AllocT<T>> S(make_ext<D>(se));
 		fillmap(S, [](long const* t, long* st) { for(int k = 0; k < D; ++k) { st[k] = t[k]; } st[0] = 2*t[0]; }, T{7});
 		auto&& w = S.strided(2);
 		f(w); return;
 	}
 	if(kind == K_REF) {
-		std::vector<T> buf(static_cast<std::size_t>(a.n()) + 1, T{7});
-		multi::array_ref<T, D> R(make_ext<D>(e), buf.data());
+		// an array_ref over storage of the configuration's pointer family (for raw pointers: over a plain buffer)
+		AllocT<T> al; auto const nn = static_cast<std::size_t>(a.n()) + 1;
+		auto fp = al.allocate(nn); T* rp = op_raw(fp);
+		std::uninitialized_fill_n(rp, nn, T{7});
+		struct Release { AllocT<T>& al; decltype(fp) fp; T* rp; std::size_t nn; ~Release() { std::destroy_n(rp, nn); al.deallocate(fp, nn); } } release{al, fp, rp, nn};
+		multi::array_ref<T, D, decltype(fp)> R(make_ext<D>(e), fp);
 		fillmap(R, ident, T{7});
 		f(R); return;
 	}
-	multi::array<T, D> S(make_ext<D>(e));
+	multi::array<T, D, AllocT<T>> S(make_ext<D>(e));
 	fillmap(S, ident, T{7});
 	if(kind == K_ARRAY) { f(S); return; }
 	if(kind == K_CVIEW) { if constexpr(!Mutable) { f_(std::as_const(S)()); return; } }  // view with pointer-to-const element pointer
 	auto&& w = S(); f(w);
 }
+template<int D, class T = int, bool Mutable = false, class F>
+void with_operand(Val const& a, int kind, F&& f_) { with_operand_a<D, T, Mutable, std::allocator>(a, kind, std::forward<F>(f_)); }
 
 }  // namespace vp::ops
